@@ -6,16 +6,16 @@
 (* from resource bounds (MaxReg registrations, MaxPub publishes), not from *)
 (* an operation counter.                                                   *)
 (***************************************************************************)
-EXTENDS Bus
+EXTENDS Bus, Json
 
-CONSTANTS Fns,        \* handler function identities (what Unsubscribe compares)
-          FnType,     \* [Fns -> Types]
+CONSTANTS Fns,        \* handler function identities (what Unsubscribe compares), usable with every type
           Vals,       \* event payloads
           Ctxs,       \* context ids drivers may use (Bg always available)
           Profiles,   \* set of [once, async, seq, filt, accept, panics, body]
           Cfgs,       \* set of bus configurations
           TopKinds,   \* which operation kinds drivers issue at top level
           MaxReg, MaxPub,
+          MaxTop,     \* generation only: number of top-level operations per behaviour (0 = unbounded)
           Mutant      \* "none" or the name of a design mutant (must make TLC find a violation)
 
 VARIABLES scr,        \* [invocation (TaskId(pub, reg)) -> remaining body script]
@@ -27,15 +27,18 @@ mcvars == <<vars, scr, nreg, hist>>
 NextRegId == nreg + 1
 NextPubId == npub + 1
 
-SubOp(f, pr) == [op |-> "sub", id |-> NextRegId, t |-> FnType[f], fn |-> f, once |-> pr.once, async |-> pr.async,
+\* in simulation (behaviour generation) one random profile per step keeps the operation kinds balanced
+ProfChoice == IF MaxTop > 0 THEN {RandomElement(Profiles)} ELSE Profiles
+
+SubOp(t, f, pr) == [op |-> "sub", id |-> NextRegId, t |-> t, fn |-> f, once |-> pr.once, async |-> pr.async,
                  seq |-> pr.seq, filt |-> pr.filt, accept |-> pr.accept, panics |-> pr.panics, body |-> pr.body]
 
 \* body scripts contain templates; ids are filled in when the call is made
-Inst(o) == IF o.op = "sub" THEN SubOp(o.fn, o.pr) ELSE o
+Inst(o) == IF o.op = "sub" THEN SubOp(o.t, o.fn, o.pr) ELSE o
 
 TopOps ==
-       (IF "sub" \in TopKinds /\ NextRegId <= MaxReg THEN {SubOp(f, pr) : f \in Fns, pr \in Profiles} ELSE {})
-  \cup (IF "unsub" \in TopKinds THEN {[op |-> "unsub", t |-> FnType[f], fn |-> f] : f \in Fns} ELSE {})
+       (IF "sub" \in TopKinds /\ NextRegId <= MaxReg THEN {SubOp(tf[1], tf[2], pr) : tf \in Types \X Fns, pr \in ProfChoice} ELSE {})
+  \cup (IF "unsub" \in TopKinds THEN [op : {"unsub"}, t : Types, fn : Fns] ELSE {})
   \cup (IF "clear" \in TopKinds THEN [op : {"clear"}, t : Types] ELSE {})
   \cup (IF "clearall" \in TopKinds THEN {[op |-> "clearall"]} ELSE {})
   \cup (IF "count" \in TopKinds THEN [op : {"count"}, t : Types] ELSE {})
@@ -54,6 +57,7 @@ InvKey(g) == TaskId(Top(g).pub, Top(g).reg)
 
 TopCall ==
   \E g \in Procs : /\ stack[g] = <<>>
+                   /\ MaxTop = 0 \/ Len(hist) < MaxTop
                    /\ \E o \in TopOps : DoCall(g, o) /\ hist' = Append(hist, [g |-> g, o |-> o])
                    /\ UNCHANGED scr
 
@@ -127,11 +131,7 @@ MutNoMutex(g) ==
   /\ UNCHANGED <<cfg, reg, attr, fired, seqHolder, cancelled, closed, pubs, npub, gh>>
 Mutants == \E g \in Gs : MutSnapshotLive(g) \/ MutClaimRacy(g) \/ MutWaitEarly(g) \/ MutNoMutex(g)
 
-Internal ==
-  \E g \in Gs :
-    \/ OpLin(g) \/ ClearAllDone(g) \/ ShutdownDone(g) \/ ShutdownCtx(g)
-    \/ \E t \in Types : ClearAllStep(g, t)
-    \/ Snapshot(g) \/ Claim(g) \/ Dispatch(g) \/ TaskStart(g) \/ SeqAcquire(g) \/ InvEnd(g) \/ Retire(g)
+Internal == \E g \in Gs : InternalStep(g)
 
 MCInit == /\ \E c \in Cfgs : InitWith(c)
           /\ scr = <<>>
@@ -148,4 +148,7 @@ MCSpec == MCInit /\ [][MCNext]_mcvars
 
 View == <<vars, scr, nreg>>
 
+\* generation: when a behaviour has issued MaxTop operations and everything has come to rest, print it
+Quiescent == (\A g \in Procs : stack[g] = <<>>) /\ Tasks = {}
+Emit == ~(MaxTop > 0 /\ Len(hist) = MaxTop /\ Quiescent) \/ PrintT(ToJson(hist))
 =============================================================================
